@@ -285,7 +285,16 @@ func RunSync(w *tr.Writer, st *SyncStats, tid int, plan SyncPlan, rnd *rand.Rand
 			})
 		}
 		ev["warmed"] = warmed
+		// the two repair mechanisms: MergeDB through the trie, or MergeState straight into its store
+		viaState := tid%5 >= 3
+		ev["via"] = map[bool]string{true: "mergestate", false: "mergedb"}[viaState]
 		ev["res"] = Guard(func() string {
+			if viaState {
+				if err := util.MergeState(context.Background(), donor, partial); err != nil {
+					return "err"
+				}
+				return "ok"
+			}
 			if err := rt.MergeDB(donor, root, nil); err != nil {
 				return "err"
 			}
